@@ -54,6 +54,21 @@ CHECKS = {
                      "the next acquisition of that target's lock there is a record-begin followed by COMMIT from the recording process; every finished execution is recorded.",
                 note="Script begin/end come from the generated scripts (trap EXIT). SIGKILL of an invocation's parent only (kernel frees fcntl locks of a dead owner while its "
                      "script survives) is outside these scenarios and is not claimed."),
+    "C07": dict(engine="E2", category="model_checking", design_ref="DESIGN.md §4 C07, appendix A",
+                technique="stateless model checking of one parallel invocation under a controlled scheduler; differential oracle against the serial run",
+                text="One invocation at -j2/-j3 on graphs with shared nodes (diamond, 3-fan over a shared leaf, two targets over a shared chain in every command-line order "
+                     "= every --shuffle outcome, shared checksummed node on a rebuild, shared redo-always node); every schedule with <= b deviations (quick 1, thorough 2). "
+                     "No script starts twice; exit status, every file's content, the set of built targets and the canonical database state (flags, csum, stamp class, which "
+                     "run-id columns are set, dependency edges) equal the serial run's.",
+                note="The shuffle permutation hook of the design was replaced by enumerating the command-line orders explicitly (same set of orders). Graph sizes as listed."),
+    "C08": dict(engine="E2 + harness as jobserver parent", category="model_checking", design_ref="DESIGN.md §4 C08, appendix A",
+                technique="stateless model checking with the harness owning the GNU-make token pipe; token-conservation and concurrency-limit oracle on the event order",
+                text="Own mode (redo -jN: 3-fan, fan plus sibling, failing fan, error exit) and inherited mode (the harness creates the token pipe with N-1 tokens and the cheat "
+                     "pipe and passes them via MAKEFLAGS/REDO_CHEATFDS), with and without log capture (real redo-log follower in the scheduled tree); every schedule with <= b "
+                     "deviations (quick 1, thorough 2). Peak number of scripts inside work sections <= N (+1 only after a cheat grant); toplevel self-check and hook-reported "
+                     "counts equal N; inherited pipe holds exactly N-1 tokens and the cheat pipe is empty after all processes exited, on success, failure and error exit.",
+                note="Evidence reports the distinct ready-sets seen at event-loop wake-ups and how many executions granted a cheat token (a run where that is 0 has not "
+                     "exercised cheating). The harness itself never takes tokens."),
     "C09": dict(engine="E2", category="model_checking", design_ref="DESIGN.md §4 C09, appendix A",
                 technique="stateless model checking of the real process tree under a controlled scheduler, iterative deviation bounding",
                 text="Every schedule with <= b deviations (quick b=1, thorough b=2) from the default policy is executed on the real binary, one process running "
